@@ -1,5 +1,5 @@
 SPECIFICATION Spec
-INVARIANT RoundTrip FilterRespected OrderKept ParseInvertsFormat UserDataFits TxtLimit Total Emit
+INVARIANT RoundTrip FilterRespected OrderKept ParseInvertsFormat UserDataFits TxtLimit OneCharString Total Emit
 CHECK_DEADLOCK FALSE
 CONSTANTS
   Classes = {"a", "sp", "cm", "dq", "nl", "u"}
@@ -8,6 +8,7 @@ CONSTANTS
   MaxTxt = 255
   MaxPacket = 1000
   NameLen = 60
+  ChunkAt = 0
   Pool <- MC_Pool
   UdSample <- MC_UdSample
   Foreign <- MC_Foreign
